@@ -216,7 +216,8 @@ fn big_file_chunking(_ctx: &Ctx, ev: &mut Value) -> Option<Violation> {
             Op::Reopen { strict: true },
             Op::Overwrite { p: raw("/big"), frac: 40000, data: DataSpec { len: 70_000, seed: 9 } },
         ],
-        chops: vec![vec![200, 130, 150, 40, 10, 255, 180, 129, 224], vec![129, 130, 5, 131]],
+        // a mixed plan, only-1-byte transfers, and Interrupted before every 1-byte transfer
+        chops: vec![vec![200, 130, 150, 40, 10, 255, 180, 129, 224], vec![40], vec![10, 40]],
     };
     let what = "V3 file grown to 7.4 MB (110+ FAT sectors, first DIFAT sector) under memory and choppy backends";
     let viol = |f: Fail, trace: Vec<String>| Violation { key: f.key, detail: format!("[{}] {}", what, f.detail), case: serde_json::json!({"scenario": what}), trace: trace.into_iter().rev().take(12).rev().collect() };
@@ -255,7 +256,7 @@ pub fn def() -> PropDef {
     PropDef {
         id: "C18",
         level: "exploration",
-        rule: "histories of namespace/content/metadata ops and chunking-independent handle composites (write_all, read_exact, read_to_end, seek, set_len, flush, len, position), every new storage's times pinned through the public setters; each history runs under V3 and V4 x max_buffer_size in {0,1024,1500,65536,default} x backends {in-memory run 1, in-memory run 2, real std::fs::File in a scratch directory (with the history's reopen ops closing and reopening the path), choppy backend with generated short read/write counts and spurious Interrupted (3 plans per case)}; all results are compared with the model in every run (so they are equal across all runs), and within one (version, buffer size) the final images must be byte-identical; the final image is also opened through cfb::open(path); for version 4 the real file is made by cfb::create(path) on a path that already holds a longer file of other bytes. A scenario step grows a version-3 file to 7.4 MB (first DIFAT sector) under the in-memory backend and two chop plans x 2 buffer sizes. evaluations = executions. Non-trivial = history with a mini stream, a stream > 8 KiB and a removal, in which the choppy backend delivered a short read, a short write and an Interrupted; distinct = distinct case JSON.",
+        rule: "histories of namespace/content/metadata ops and chunking-independent handle composites (write_all, read_exact, read_to_end, seek, set_len, flush, len, position), every new storage's times pinned through the public setters; each history runs under V3 and V4 x max_buffer_size in {0,1024,1500,65536,default} x backends {in-memory run 1, in-memory run 2, real std::fs::File in a scratch directory (with the history's reopen ops closing and reopening the path), choppy backend with generated short read/write counts and spurious Interrupted (3 plans per case)}; all results are compared with the model in every run (so they are equal across all runs), and within one (version, buffer size) the final images must be byte-identical; the final image is also opened through cfb::open(path); for version 4 the real file is made by cfb::create(path) on a path that already holds a longer file of other bytes. A scenario step grows a version-3 file to 7.4 MB (first DIFAT sector) under the in-memory backend and three chop plans (mixed, only 1-byte transfers, Interrupted before every 1-byte transfer) x 2 buffer sizes. evaluations = executions. Non-trivial = history with a mini stream, a stream > 8 KiB and a removal, in which the choppy backend delivered a short read, a short write and an Interrupted; distinct = distinct case JSON.",
         assumptions: &["Interrupted is injected on read and write only and never twice in a row (std's retry loops make progress); seek is not interruptible in std's contract"],
         quick_cases: 70,
         thorough_cases: 1500,
